@@ -320,3 +320,51 @@ def rule_bytetable_index(prog, rep, units, rid='W3', control=None):
         rep.notes['W3_control_instances'] = n_control
         if n_control == 0:
             raise AnalysisBroken('W3: the control unit has no 256-entry table subscripts any more (rule would pass vacuously)')
+
+
+def rule_snprintf_fit(prog, rep, units, rid='W5'):
+    """`n = (v)snprintf(buf, size, ...)`: the output was complete only if 0 <= n < size (n == size means the last character
+    was cut off).  Every comparison between the result and the size that was passed in must therefore be the strict form
+    (n < size accepts, n >= size rejects)."""
+    rep.rule(rid, 'the result of (v)snprintf is accepted as complete only when it is strictly below the size passed in')
+    for unit in units:
+        prog.unit(unit)
+        for f in sorted(prog.funcs_in(unit), key=lambda x: x.line or 0):
+            if f.body is None:
+                continue
+            pairs = []     # (result variable name, canon of the size argument)
+            for x in walk(f.body):
+                call = None
+                var = None
+                if x.get('kind') == 'VarDecl':
+                    from .expr import var_init
+                    i = var_init(x)
+                    if i is not None and strip(i).get('kind') == 'CallExpr':
+                        call, var = strip(i), x.get('name')
+                elif x.get('kind') == 'BinaryOperator' and x.get('opcode') == '=' and strip(children(x)[1]).get('kind') == 'CallExpr' \
+                        and strip(children(x)[0]).get('kind') == 'DeclRefExpr':
+                    call, var = strip(children(x)[1]), canon(children(x)[0])
+                if call is None or prog.callee_name(call) not in ('snprintf', 'vsnprintf') or len(children(call)) < 3:
+                    continue
+                pairs.append((var, canon(strip(children(call)[2]))))
+            if not pairs:
+                continue
+            for x in walk(f.body):
+                if x.get('kind') != 'BinaryOperator' or x.get('opcode') not in ('<', '<=', '>', '>='):
+                    continue
+                a, b = (canon(strip(y)) for y in children(x))
+                for (var, size) in pairs:
+                    op = None
+                    if a == var and b == size:
+                        op = x['opcode']
+                    elif b == var and a == size:
+                        op = {'<': '>', '<=': '>=', '>': '<', '>=': '<='}[x['opcode']]
+                    if op is None:
+                        continue
+                    rep.instance(rid)
+                    ok = op in ('<', '>=')
+                    rep.oblige(rid, ok, {'function': f.name, 'line': x.get('_line'), 'test': canon(x)[:50]})
+                    if not ok:
+                        rep.violation(rid, f, x.get('_line'), 'fit:%s' % canon(x)[:30],
+                                      '%s treats a result equal to the size as fitting: (v)snprintf returns the length the full text '
+                                      'would have had, so n == size means the last character was dropped' % canon(x)[:50])
